@@ -167,7 +167,7 @@ func c11(c *Ctx) {
 				for _, in := range b.Instrs {
 					if st, ok := in.(*ssa.Store); ok && isFieldSel(st.Addr, "v1.CustomResourceDefinitionVersion", f.field) {
 						found = true
-						r, p, ok := flow.AccessPath(st.Val)
+						r, p, ok := flow.AccessPathC(st.Val)
 						good := ok && p == f.src && (r == ssa.Value(vr) || flow.Root(r) == spillOf(vr) || flow.Root(r) == ssa.Value(vr))
 						c.R.Check(good, load.FuncName(gen)+": "+f.field, c.pos(st.Pos()), f.field+" = vr."+f.src, f.field+" of the CRD version is not vr."+f.src+" ("+p+")")
 					}
@@ -209,7 +209,7 @@ func c11(c *Ctx) {
 				for _, in := range b.Instrs {
 					if st, ok := in.(*ssa.Store); ok && isFieldSel(st.Addr, "v1.CustomResourceDefinitionSpec", field) {
 						found = true
-						r, p, ok := flow.AccessPath(st.Val)
+						r, p, ok := flow.AccessPathC(st.Val)
 						c.R.Check(ok && p == wantPath && r == xrd, load.FuncName(fn)+": "+field, c.pos(st.Pos()), field+" = xrd."+wantPath, field+" of the CRD is not xrd."+wantPath)
 					}
 				}
@@ -262,7 +262,7 @@ func c11(c *Ctx) {
 			for _, in := range b.Instrs {
 				if ms, ok := in.(*ssa.MakeSlice); ok && strings.HasSuffix(ms.Type().String(), "CustomResourceDefinitionVersion") {
 					if of, ok := lenOfValue(ms.Len); ok {
-						_, p, _ := flow.AccessPath(of)
+						_, p, _ := flow.AccessPathC(of)
 						lenOK = p == "Spec.Versions"
 					}
 				}
@@ -301,7 +301,7 @@ func c11(c *Ctx) {
 						w := &flow.Walker{Opts: flow.Opts{ThroughCall: func(ci ssa.CallInstruction) bool { return cfgx.CalleeName(ci) == "builtin.append" }}}
 						fromAuthor := false
 						for x := range w.Back(st.Val) {
-							if _, p, ok := flow.AccessPath(x); ok && strings.HasSuffix(p, f) && isAuthor(x) {
+							if _, p, ok := flow.AccessPathC(x); ok && strings.HasSuffix(p, f) && isAuthor(x) {
 								fromAuthor = true
 							}
 						}
@@ -362,8 +362,8 @@ func c11(c *Ctx) {
 					if !ok || (bo.Op != token.EQL && bo.Op != token.NEQ) {
 						continue
 					}
-					_, px, _ := flow.AccessPath(bo.X)
-					_, py, _ := flow.AccessPath(bo.Y)
+					_, px, _ := flow.AccessPathC(bo.X)
+					_, py, _ := flow.AccessPathC(bo.Y)
 					t, fe := cfgx.CondEdges(bo)
 					if bo.Op == token.NEQ {
 						t, fe = fe, t
@@ -388,8 +388,17 @@ func c11(c *Ctx) {
 				}
 			}
 			c.R.Check(good, load.FuncName(vc)+": "+f+" conflict rejected", c.pos(vc.Pos()), "equal "+f+" returns an error", "an equal "+f+" does not lead to an error")
+			// "non-empty and equal" known false: one of the two tests failed, or a
+			// boolean and-combining exactly them (a switch case expression) is false
+			isClaimF := func(v ssa.Value) bool { _, p, _ := flow.AccessPathC(v); return p == "Spec.ClaimNames."+f }
+			isXRF := func(v ssa.Value) bool { _, p, _ := flow.AccessPathC(v); return p == "Spec.Names."+f }
+			conj := findCmps(vc, true, func(x, y ssa.Value) bool { return isClaimF(x) && isXRF(y) })
+			conj = append(conj, findCmps(vc, false, func(x, y ssa.Value) bool {
+				s, isC := cfgx.ConstString(y)
+				return isC && s == "" && isClaimF(x)
+			})...)
 			for i, r := range success {
-				gates := union(differ, empty)
+				gates := union(union(differ, empty), conjFalseEdges(vc, conj))
 				ok, w := cfgx.MustCross(r, gates, c.posf())
 				c.R.Check(ok, load.FuncName(vc)+": success #"+itoa(i)+" past "+f, c.pos(r.Pos()), "success is reached only past the "+f+" comparison (or its own emptiness)", "validateClaimNames can succeed without having compared "+f, w...)
 			}
@@ -404,8 +413,8 @@ func c11(c *Ctx) {
 					if !ok || (bo.Op != token.EQL && bo.Op != token.NEQ) {
 						continue
 					}
-					rx, px, _ := flow.AccessPath(bo.X)
-					ry, py, _ := flow.AccessPath(bo.Y)
+					rx, px, _ := flow.AccessPathC(bo.X)
+					ry, py, _ := flow.AccessPathC(bo.Y)
 					if px == f && py == f && flow.Root(rx) != flow.Root(ry) {
 						t, fe := cfgx.CondEdges(bo)
 						if bo.Op == token.EQL {
